@@ -250,6 +250,135 @@ fn rep_owed_reply(ctx: &mut Ctx) {
     }
 }
 
+/// REP, with history: the requester's first connection ends and the requester joins again under the
+/// same identity, all of it while one recv call waits; that call hands out the request that arrives
+/// on the new connection. With the reply owed, a further recv is polled k times and dropped. The
+/// owed reply must still be accepted, and it goes to the connection that asked.
+fn rep_owed_reply_one_recv_rejoin(ctx: &mut Ctx) {
+    world::swarm(ctx, SwarmOpts::default());
+    let k = 1 + ctx.plan(3) as u32;
+    let how = ctx.plan(3);
+    let gap = ctx.plan(6) as u32;
+    let settle = ctx.plan_bool();
+    let viol: Rc<RefCell<Vec<(&'static str, String)>>> = Rc::new(RefCell::new(Vec::new()));
+    let done = Rc::new(RefCell::new(false));
+    let (vl, dn) = (viol.clone(), done.clone());
+    rt::task::spawn_local("app", async move {
+        let mut rep = RepSocket::new();
+        let ep = rep.bind("tcp://127.0.0.1:0").await.expect("bind").to_string();
+        let mut p1 = RawPeer::connect(&ep).expect("connect");
+        let _ = p1.hello("REQ", Some(b"same-id")).await;
+        let mut q = vec![vec![]];
+        q.extend(tagged(1, 0, &[3]));
+        let _ = p1.send_msg(&q).await;
+        match rep.recv().await {
+            Ok(m) if tag_of(&from_zmq(&m)) == Some((1, 0)) => {}
+            other => {
+                vl.borrow_mut().push(("request_not_delivered", format!("first request: {:?}", other.map(|m| show_msg(&from_zmq(&m))))));
+                return world::park().await;
+            }
+        }
+        let _ = rep.send(to_zmq(&tagged(7, 0, &[4]))).await;
+        rt::task::idle().await;
+        let old_conn = p1.conn.clone();
+        let ep2 = ep.clone();
+        // beside the one waiting recv: the first connection ends, the requester joins again and asks
+        let mover = rt::task::spawn_local("requester", async move {
+            match how {
+                0 => p1.close(),
+                1 => {
+                    p1.reset();
+                    drop(p1);
+                }
+                _ => {
+                    let mut q = vec![vec![]];
+                    q.extend(tagged(1, 1, &[30]));
+                    let enc = rc::encode_msg(&q);
+                    let _ = p1.send(&enc[..enc.len() / 2]).await;
+                    rt::count("fault_cut_mid_message");
+                    p1.close();
+                }
+            }
+            // (no idle barrier here: the application's waiting recv must stay one call)
+            for _ in 0..gap + if settle { 40 } else { 0 } {
+                rt::task::yield_now().await;
+            }
+            let mut p2 = RawPeer::connect(&ep2).expect("connect");
+            let _ = p2.hello("REQ", Some(b"same-id")).await;
+            for _ in 0..if settle { 40 } else { 0 } {
+                rt::task::yield_now().await;
+            }
+            let mut q = vec![vec![]];
+            q.extend(tagged(1, 7, &[3]));
+            let _ = p2.send_msg(&q).await;
+            p2
+        });
+        let mut calls = 0;
+        let mut got = false;
+        for _ in 0..4 {
+            calls += 1;
+            match rt::future::or_idle(rep.recv()).await {
+                Some(Ok(m)) if tag_of(&from_zmq(&m)) == Some((1, 7)) => {
+                    got = true;
+                    break;
+                }
+                Some(_) => {}
+                None => break,
+            }
+        }
+        let Ok(p2) = mover.await else { return world::park().await };
+        if !got {
+            vl.borrow_mut().push(("rejoined_peer_not_heard", "REP: the request of the requester that joined again under its identity was never delivered".into()));
+            *dn.borrow_mut() = true;
+            return world::park().await;
+        }
+        if calls == 1 {
+            rt::count("probe_one_recv_call_saw_the_end_the_rejoin_and_the_request");
+        }
+        let abandoned = rt::future::or_idle(rt::future::poll_budget(rep.recv(), k)).await.flatten();
+        if abandoned.is_some() {
+            *dn.borrow_mut() = true;
+            return world::park().await;
+        }
+        rt::count("probe_recv_abandoned_with_reply_owed");
+        let reply = tagged(7, 1, &[4]);
+        if let Err(e) = rep.send(to_zmq(&reply)).await {
+            vl.borrow_mut().push(("owed_reply_refused_after_abandoned_recv", format!("REP: the requester's first connection ended ({}) and it joined again under its identity while a recv waited ({calls} call(s) until its new request was handed out); a further recv was polled {k} time(s) and dropped; the reply that was owed all along was refused: {e}", ["close", "reset", "cut inside a message"][how as usize])));
+            *dn.borrow_mut() = true;
+            return world::park().await;
+        }
+        rt::task::idle().await;
+        let mut expect = vec![vec![]];
+        expect.extend(reply.iter().cloned());
+        if p2.inbound().messages().last() != Some(&expect) {
+            vl.borrow_mut().push(("owed_reply_wrong_after_abandoned_recv", format!("REP: the reply owed to the rejoined requester is not the last message on its new connection ({:?})", p2.inbound().messages().iter().map(|m| show_msg(m)).collect::<Vec<_>>())));
+        }
+        if rc::parse_stream(&old_conn.tap_from(1)).messages().len() > 1 {
+            vl.borrow_mut().push(("reply_leaked_to_other_connection", "REP: the reply to the request on the new connection was written to the old one".into()));
+        }
+        *dn.borrow_mut() = true;
+        world::park().await;
+        drop(rep);
+        drop(p2);
+    });
+    let end = ctx.sim.run(300_000);
+    if end == rt::RunEnd::Budget {
+        ctx.violation("no_quiescence", "REP owed reply after a rejoin: no quiescence".into());
+    }
+    ctx.check_panics();
+    for (c, d) in viol.borrow().clone() {
+        ctx.violation(c, d);
+    }
+    if *done.borrow() {
+        ctx.nontrivial();
+    } else if end == rt::RunEnd::Quiescent && ctx.sim.rt.panics.borrow().is_empty() && viol.borrow().is_empty() {
+        ctx.violation("stuck", "REP owed reply after a rejoin: the scenario never completed".into());
+    }
+    if ctx.want_sample {
+        ctx.out.sample = Some(format!("REP: requester leaves ({how}) and rejoins under its identity while a recv waits; recv abandoned after {k} polls with the reply owed"));
+    }
+}
+
 /// the component simulation of the fair queue (3.9): in a third of its runs the receiving end is
 /// taken over now and then by a new waker, which is what an abandoned recv followed by a recv in
 /// another task (or under a combinator with its own wakers) looks like to the queue
@@ -430,6 +559,8 @@ pub fn def() -> PropDef {
             Stratum { name: "cancel_world", quick: 120_000, thorough: (2_000_000) * 3, exhaustive: (false, false), run: cancel_world, what: "PULL/SUB/DEALER/ROUTER/REP/XPUB with abandoned recvs; C05 oracle" },
             Stratum { name: "release_after_abandoned_recv", quick: 40_000, thorough: 2_000_000, exhaustive: (false, false), run: release_after_abandoned_recv, what: "a peer closes, another peer's admission is held up, a recv is abandoned after k polls: the closed peer is still released later, nothing is lost, SUB can still subscribe" },
             Stratum { name: "l1_takeover", quick: 200_000, thorough: 10_000_000, exhaustive: (false, false), run: l1_takeover, what: "fair-queue component simulation: a poll is abandoned and the next one comes under another waker (another task, FuturesUnordered): whoever polled last is the one that is woken" },
+            Stratum { name: "rep_owed_reply_one_recv_rejoin", quick: 20_000, thorough: 1_000_000, exhaustive: (false, false), run: rep_owed_reply_one_recv_rejoin, what: "REP: while one recv call waits, the requester's connection ends (close, reset, cut) and the requester joins again under its identity and asks; with that reply owed a further recv is abandoned after 1..3 polls: the reply is accepted and goes to the new connection" },
+            Stratum { name: "rep_owed_reply_after_rejoin", quick: 9_600, thorough: 800_000, exhaustive: (false, false), run: super::c16::rejoin_owed_reply, what: "REP: the requester left and came back under its identity (16 departure/rejoin histories); with the reply to its new request owed, a further recv is abandoned after 1..3 polls: the reply is still accepted and reaches the connection that asked" },
             Stratum { name: "rep_owed_reply", quick: 30_000, thorough: 1_500_000, exhaustive: (false, false), run: rep_owed_reply, what: "REP: with a reply owed, a further recv is abandoned after k polls: the owed reply is still accepted and reaches its requester" },
             Stratum { name: "req_abandon", quick: 60_000, thorough: (1_000_000) * 3, exhaustive: (false, false), run: req_abandon, what: "REQ protocol state after an abandoned recv" },
         ],
